@@ -154,8 +154,14 @@ def _labels_valid(iso):
 
 def _check_state(ctx, iso, model, before, call, outcome, target=None):
     """Postcondition after one call. Returns False if the state is no longer interpretable."""
-    after = _snapshot(iso)
     sig = call["sig"]
+    try:
+        after = _snapshot(iso)
+    except Exception as exc:
+        # the isotherm cannot even be looked at any more (a label the library itself rejects, a property that raises)
+        ctx.violation("%s/isotherm-unusable-after-%s-call" % (sig, "refused" if outcome[0] != "ok" else "successful"), "after the call the isotherm's own accessors raise", call=call, exc=exc,
+                      units=dict(iso.units))
+        return False
     # (e) things no conversion may touch
     untouched = _diff_snap(before, after, ignore_data_cols=(iso.pressure_key, iso.loading_key))
     untouched = [k for k in untouched if k not in ("units", "_temperature")]
